@@ -501,13 +501,21 @@ func (w *world) runBlock(pre *observation, ops []op, withTampers bool) *blockOut
 			res.Failed++
 		}
 	}
+	// no transaction may use more gas than it bought (the receipt's gas is what the fee accounting below trusts)
+	var gasMM []mismatch
+	for i, t := range metas {
+		if g, ok := t.Tx.(interface{ Gas() uint64 }); ok && rcs[i].GasUsed > g.Gas() {
+			gasMM = append(gasMM, mismatch{"gas-used", "coin", "above-limit",
+				fmt.Sprintf("receipt of %s reports %d gas used, its gas limit is %d", t.Op, rcs[i].GasUsed, g.Gas())})
+		}
+	}
 	run := func(adjust bool) (*model, []mismatch) {
 		m := newModel(w, pre, adjust)
 		for i, t := range metas {
 			m.apply(t, rcs[i])
 		}
 		m.finish()
-		return m, m.compare(pre, post, b.Height)
+		return m, append(append([]mismatch{}, gasMM...), m.compare(pre, post, b.Height)...)
 	}
 	// the property itself
 	_, mm := run(false)
@@ -546,7 +554,7 @@ func (w *world) runBlock(pre *observation, ops []op, withTampers bool) *blockOut
 	return res
 }
 
-var clauseRank = map[string]int{"supply": 0, "account": 1, "hidden-sum": 2, "hidden-output": 3, "hidden-unowned": 4, "unattributed": 5}
+var clauseRank = map[string]int{"gas-used": -1, "supply": 0, "account": 1, "hidden-sum": 2, "hidden-output": 3, "hidden-unowned": 4, "unattributed": 5}
 
 func other(mm []mismatch, x mismatch) string {
 	for _, y := range mm {
